@@ -41,7 +41,8 @@ P = {
             "present or not; allow_encoded_slashes off or not) x outcome vector (every step: success | error value = random tree of depth "
             "<= 4 over the 8 heimdall sentinels, other sentinels, RedirectError, EvalError, foreign leaves, %w / Join / ErrorChain | panic "
             "with error or string value; fallback flag; continue-on-error; every `if`: absent | true | false (stub program or really "
-            "compiled CEL) | program error | panic; error handlers: the three REAL mechanisms incl. redirect render failure, stubs that "
+            "compiled CEL) | program error | panic; error handlers: the three REAL mechanisms incl. redirect render failure and request-dependent redirect targets that render "
+            "nothing / blanks / a URL, stubs that "
             "fail / panic / return nil silently) x request (with or without %2F); 45% of the rules are 'calm' (steps mostly succeed) so "
             "that complete pipelines are frequent; all three entry points per case.  non-trivial = a rule applied and at least one of its "
             "steps failed, was skipped by a false condition, had a condition that could not be evaluated, or panicked; distinct by hash of "
